@@ -159,3 +159,26 @@ func H_C01_shared_child() {
 	verifAssert(!p, "serialising and parsing an acyclic tree does not panic")
 	verifReach("end")
 }
+
+// the round trip inside a history: a container that was serialised before and then changed inside a nested
+// container still round-trips to its current content
+func H_C01_roundtrip_after_nested_mutation() {
+	x, y := nondetInt(), nondetInt()
+	verifAssume(verifAnd(verifAnd(x >= 0, x < 10), verifAnd(y >= 0, y < 10)))
+	innerL := NewList(x, "s")
+	innerO := NewObject("q", x)
+	var c any
+	if nondetIntRange(0, 1) == 0 {
+		c = NewList(innerL, innerO)
+	} else {
+		c = NewObject("l", innerL, "o", innerO)
+	}
+	hStringAny(c)
+	if nondetIntRange(0, 1) == 0 {
+		innerL.Add(y)
+	} else {
+		innerO.Set("q", 1.5).Set("z", y)
+	}
+	hCheckRoundTrip(c, false)
+	verifReach("end")
+}
